@@ -9,7 +9,7 @@ for i in $(seq -w 1 20); do
   [ $r -ne 0 ] && { rc=$r; echo "C$i exit $r"; echo "$out" | tail -5 | cut -c1-400; }
 done
 # beyond the listed properties (evidence-extras/): spec modules with their own replay
-for x in X01; do
+for x in X01 X02; do
   out=$(./check $x --tier $tier 2>&1); r=$?
   echo "$out" | grep -E "^$x $tier:|VIOLATION|KNOWN-FINDING|TOOL" | cut -c1-220
   [ $r -ne 0 ] && { rc=$r; echo "$x exit $r"; echo "$out" | tail -5 | cut -c1-400; }
